@@ -46,11 +46,20 @@ def run_script(root, script_text, iter_log=True, timeout=120, flavour="asan"):
     payload = (("iter=1" if iter_log else "iter=0") + "\n" + script_text).encode()
     env = dict(os.environ)
     env.update(SAN_ENV)
+    # a replayed witness names a spool directory that is long gone
+    made = None
+    m = re.match(r"spool (\S+)", script_text)
+    if m and not os.path.isdir(m.group(1)):
+        made = m.group(1)
+        os.makedirs(made)
     try:
         p = subprocess.run([exe], input=b"CASE s %d\n" % len(payload) + payload, stdout=subprocess.PIPE,
                            stderr=subprocess.PIPE, timeout=timeout, env=env)
     except subprocess.TimeoutExpired as e:
         return None, (e.stdout or b"").decode("latin1"), "TIMEOUT", -9
+    finally:
+        if made:
+            shutil.rmtree(made, ignore_errors=True)
     out = p.stdout.decode("latin1")
     return parse_log(out), out, p.stderr.decode("latin1"), p.returncode
 
@@ -104,6 +113,11 @@ def parse_log(out):
         except (ValueError, IndexError):
             ev.append(("GARBLED", l))
     return ev
+
+
+def harness_overflow(events):
+    """the history outgrew a fixed table of the harness: nothing can be concluded from it"""
+    return any(e[0] == "ERR" and "process table full" in e[1] for e in events)
 
 
 def vtodo_uid(text):
